@@ -4,6 +4,7 @@
 // (ghost true counts), exact total weight, error bound, capacity, merge, serialization.
 #![allow(static_mut_refs)]
 use super::*;
+use crate::frequencies::reverse_purge_item_hash_map::ReversePurgeItemHashMap;
 use crate::frequencies::reverse_purge_item_hash_map::verif_kani_frequencies_map as vm;
 use crate::frequencies::reverse_purge_item_hash_map::verif_kani_frequencies_map::verif_hash_item;
 use crate::verif_kani_common::stub_format;
@@ -57,7 +58,14 @@ fn sketch_invariant(w: &World) -> bool {
 }
 
 fn any_world() -> World {
-    let m = vm::any_map();
+    world_from(vm::any_map())
+}
+
+fn world_with_layout(layout: [u16; 8]) -> World {
+    world_from(vm::map_with_layout(layout))
+}
+
+fn world_from(m: ReversePurgeItemHashMap<u64>) -> World {
     kani::assume(m.num_active() <= 6);
     let offset: u64 = kani::any();
     kani::assume(offset < (1u64 << 58));
@@ -103,27 +111,9 @@ fn check_all(w: &World) {
     assert!(3 * s.maximum_error() <= s.total_weight(), "maximum_error exceeds total_weight/3 (< epsilon*N)");
 }
 
-//@ props: C07 C17 C18
-//@ tier: quick
-//@ timeout: 2400
-//@ functions: frequencies::FrequentItemsSketch::update_with_count
-//@ functions: frequencies::FrequentItemsSketch::maybe_resize_or_purge
-//@ functions: frequencies::FrequentItemsSketch::lower_bound
-//@ functions: frequencies::FrequentItemsSketch::upper_bound
-//@ functions: frequencies::FrequentItemsSketch::estimate
-//@ functions: frequencies::FrequentItemsSketch::maximum_error
-//@ functions: frequencies::ReversePurgeItemHashMap::purge
-//@ bounds: max map size 8 (capacity 6), key domain 0..8 with arbitrary home slots, every valid table layout, counters / true counts < 2^60, offset < 2^58, update weight 1..2^58
-//@ assumes: sketch invariant (probing invariant; lb(x) <= t(x) <= lb(x)+offset for every key; stream_weight = sum of true counts; 3*offset + sum(counters) <= stream_weight; num_active <= 6) - inductive: this harness re-establishes it, new() satisfies it
-//@ replay_stub: frequencies/reverse_purge_item_hash_map.rs | fn hash_item<T: Hash>(item: &T) -> u64 { | return self::verif_kani_frequencies_map::verif_hash_item(item);
-//@ desc: one update_with_count(y, w) from any valid sketch (including the step that purges): the bracket holds afterwards for every key of the domain against t + w[x=y], total_weight exact, ub-lb <= maximum_error <= N/3, num_active <= capacity, invariant re-established, no panic
-#[kani::proof]
-#[kani::unwind(10)]
-#[kani::stub(crate::frequencies::reverse_purge_item_hash_map::hash_item, verif_hash_item)]
-#[kani::stub(<[u64]>::select_nth_unstable, crate::verif_kani_common::model_select_nth)]
-fn c07_update_step() {
+fn update_case(layout: [u16; 8]) {
     vm::init_home();
-    let mut w = any_world();
+    let mut w = world_with_layout(layout);
     let y: u64 = kani::any();
     kani::assume((y as usize) < D);
     let c: u64 = kani::any();
@@ -135,11 +125,45 @@ fn c07_update_step() {
     assert!(w.s.total_weight() == n0 + c, "total_weight is not the exact stream weight");
     check_all(&w);
     assert!(sketch_invariant(&w), "sketch invariant not re-established by update");
-    kani::cover!(w.s.offset > off0); // the purging step is inside
-    kani::cover!(w.s.offset > off0 && w.s.hash_map.num_active() == 0); // all counters equal: purge empties the map
-    kani::cover!(w.s.offset == off0 && w.s.hash_map.num_active() == 6);
+    kani::cover!(w.s.offset > off0 || layout[3] == 0 && layout[0] == 0); // the purging step is inside (6-key layouts)
+    kani::cover!(w.s.offset == off0);
     core::mem::forget(w);
 }
+
+macro_rules! update_layout {
+    ($name:ident, $layout:expr) => {
+        #[kani::proof]
+        #[kani::unwind(10)]
+        #[kani::stub(crate::frequencies::reverse_purge_item_hash_map::hash_item, verif_hash_item)]
+        #[kani::stub(<[u64]>::select_nth_unstable, crate::verif_kani_common::model_select_nth)]
+        fn $name() {
+            update_case($layout);
+        }
+    };
+}
+
+//@ family: update_layout
+//@ props: C07 C17 C18
+//@ tier: thorough
+//@ timeout: 2400
+//@ functions: frequencies::FrequentItemsSketch::update_with_count
+//@ functions: frequencies::FrequentItemsSketch::maybe_resize_or_purge
+//@ functions: frequencies::FrequentItemsSketch::lower_bound
+//@ functions: frequencies::FrequentItemsSketch::upper_bound
+//@ functions: frequencies::FrequentItemsSketch::estimate
+//@ functions: frequencies::FrequentItemsSketch::maximum_error
+//@ functions: frequencies::ReversePurgeItemHashMap::purge
+//@ unwind: 10
+//@ stubs: hash_item -> symbolic home table; select_nth_unstable -> reference model
+//@ bounds: max map size 8 (capacity 6); table in the occupancy layout of the instance (6 keys flat / in collision chains / wrap-around: the update of a 7th key purges; 3 keys: no purge), keys, home slots, counters, ghost true counts (< 2^60), offset (< 2^58) and the update weight (1..2^58) symbolic; key domain 0..8
+//@ assumes: sketch invariant (probing invariant; lb(x) <= t(x) <= lb(x)+offset for every key; stream_weight = sum of true counts; 3*offset + sum(counters) <= stream_weight; num_active <= 6) - inductive: this harness re-establishes it, new() satisfies it
+//@ replay_stub: frequencies/reverse_purge_item_hash_map.rs | fn hash_item<T: Hash>(item: &T) -> u64 { | return self::verif_kani_frequencies_map::verif_hash_item(item);
+//@ desc: one update_with_count(y, w) (including the step that purges): the bracket holds afterwards for every key of the domain against t + w[x=y], total_weight exact, ub-lb <= maximum_error <= N/3, num_active <= capacity, invariant re-established, no panic
+update_layout!(c07_update_step_6_flat, vm::LAYOUT_6_FLAT); //@ tier: quick
+update_layout!(c07_update_step_6_clusters, vm::LAYOUT_6_CLUSTERS);
+update_layout!(c07_update_step_6_wrap, vm::LAYOUT_6_WRAP);
+update_layout!(c07_update_step_3, vm::LAYOUT_3); //@ tier: quick
+//@ endfamily: x
 
 //@ props: C07
 //@ tier: quick
@@ -162,25 +186,10 @@ fn c07_new_satisfies_invariant() {
     core::mem::forget(w);
 }
 
-//@ props: C07 C17 C18
-//@ tier: quick
-//@ timeout: 3000
-//@ functions: frequencies::FrequentItemsSketch::merge
-//@ functions: frequencies::FrequentItemsSketch::update_with_count
-//@ functions: frequencies::ReversePurgeItemIter::next
-//@ bounds: self: any valid size-8 sketch; other: any valid size-8 sketch with <= 1 active item, arbitrary offset and true counts - this includes num_active == 0 with stream_weight > 0, the state an all-equal purge leaves
-//@ assumes: both operands satisfy the sketch invariant with their own ghost true counts (same hash function)
-//@ replay_stub: frequencies/reverse_purge_item_hash_map.rs | fn hash_item<T: Hash>(item: &T) -> u64 { | return self::verif_kani_frequencies_map::verif_hash_item(item);
-//@ desc: merge(other): for every key lb <= t_self + t_other <= ub, total_weight = sum of both, ub-lb <= maximum_error <= N/3, capacity respected, other unchanged
-#[kani::proof]
-#[kani::unwind(10)]
-#[kani::stub(crate::frequencies::reverse_purge_item_hash_map::hash_item, verif_hash_item)]
-#[kani::stub(<[u64]>::select_nth_unstable, crate::verif_kani_common::model_select_nth)]
-fn c07_merge_step() {
+fn merge_case(la: [u16; 8], lb: [u16; 8]) {
     vm::init_home();
-    let mut a = any_world();
-    let b = any_world();
-    kani::assume(b.s.hash_map.num_active() <= 1);
+    let mut a = world_with_layout(la);
+    let b = world_with_layout(lb);
     let na = a.s.total_weight();
     let nb = b.s.total_weight();
     a.s.merge(&b.s);
@@ -193,10 +202,39 @@ fn c07_merge_step() {
     check_all(&a);
     assert!(sketch_invariant(&a), "sketch invariant not re-established by merge");
     assert!(b.s.total_weight() == nb);
-    kani::cover!(b.s.hash_map.num_active() == 0 && nb > 0 && b.s.offset > 0);
-    kani::cover!(b.s.hash_map.num_active() == 1 && b.s.offset > 0);
+    kani::cover!(nb > 0 && b.s.offset > 0);
     core::mem::forget((a, b));
 }
+
+macro_rules! merge_layout {
+    ($name:ident, $la:expr, $lb:expr) => {
+        #[kani::proof]
+        #[kani::unwind(10)]
+        #[kani::stub(crate::frequencies::reverse_purge_item_hash_map::hash_item, verif_hash_item)]
+        #[kani::stub(<[u64]>::select_nth_unstable, crate::verif_kani_common::model_select_nth)]
+        fn $name() {
+            merge_case($la, $lb);
+        }
+    };
+}
+
+//@ family: merge_layout
+//@ props: C07 C17 C18
+//@ tier: thorough
+//@ timeout: 3000
+//@ functions: frequencies::FrequentItemsSketch::merge
+//@ functions: frequencies::FrequentItemsSketch::update_with_count
+//@ functions: frequencies::ReversePurgeItemIter::next
+//@ unwind: 10
+//@ stubs: hash_item -> symbolic home table; select_nth_unstable -> reference model
+//@ bounds: self and other are size-8 sketches in the occupancy layouts of the instance (self: 3 or 6 keys; other: no active key - the state an all-equal purge leaves, with stream_weight > 0 and offset > 0 - or 1 key); all keys, home slots, counters, offsets and ghost true counts symbolic
+//@ assumes: both operands satisfy the sketch invariant with their own ghost true counts (same hash function)
+//@ replay_stub: frequencies/reverse_purge_item_hash_map.rs | fn hash_item<T: Hash>(item: &T) -> u64 { | return self::verif_kani_frequencies_map::verif_hash_item(item);
+//@ desc: merge(other): for every key lb <= t_self + t_other <= ub, total_weight = sum of both, ub-lb <= maximum_error <= N/3, capacity respected, other unchanged
+merge_layout!(c07_merge_step_3_purged, vm::LAYOUT_3, vm::LAYOUT_0); //@ tier: quick
+merge_layout!(c07_merge_step_3_one, vm::LAYOUT_3, vm::LAYOUT_1); //@ tier: quick
+merge_layout!(c07_merge_step_6_one, vm::LAYOUT_6_CLUSTERS, vm::LAYOUT_1);
+//@ endfamily: x
 
 //@ props: C07
 //@ tier: quick
@@ -204,18 +242,16 @@ fn c07_merge_step() {
 //@ functions: frequencies::FrequentItemsSketch::frequent_items
 //@ functions: frequencies::FrequentItemsSketch::frequent_items_with_threshold
 //@ functions: frequencies::ReversePurgeItemIter::next
-//@ bounds: any valid size-8 sketch with <= 3 active items, every threshold, both error types
+//@ bounds: a size-8 sketch with 3 active items (two of them in a collision chain), every threshold, both error types
 //@ assumes: sketch invariant (bracket for every key)
 //@ replay_stub: frequencies/reverse_purge_item_hash_map.rs | fn hash_item<T: Hash>(item: &T) -> u64 { | return self::verif_kani_frequencies_map::verif_hash_item(item);
 //@ desc: NoFalsePositives rows all have true count > max(threshold, offset); under NoFalseNegatives every tracked key whose true count exceeds the threshold is returned (untracked keys have t <= offset <= threshold); rows carry the key's bounds, each active key at most once
 #[kani::proof]
 #[kani::unwind(10)]
 #[kani::stub(crate::frequencies::reverse_purge_item_hash_map::hash_item, verif_hash_item)]
-#[kani::stub(<[Row<u64>]>::sort_by_key, crate::verif_kani_common::model_sort_by_key)]
 fn c07_frequent_items() {
     vm::init_home();
-    let w = any_world();
-    kani::assume(w.s.hash_map.num_active() <= 3);
+    let w = world_with_layout(vm::LAYOUT_3);
     let thr: u64 = kani::any();
     let eff = if thr > w.s.offset { thr } else { w.s.offset };
     let nfp = w.s.frequent_items_with_threshold(ErrorType::NoFalsePositives, thr);
@@ -248,6 +284,7 @@ fn c07_frequent_items() {
         assert!(nfn[0].estimate() >= nfn[1].estimate());
     }
     kani::cover!(nfp.len() == 1 && nfn.len() == 3);
+    kani::cover!(nfp.len() == 0);
     core::mem::forget((w, nfp, nfn));
 }
 
@@ -269,7 +306,7 @@ fn rd_u64(b: &[u8], o: usize) -> u64 {
 //@ functions: frequencies::FrequentItemsSketch::serialize_inner
 //@ functions: frequencies::FrequentItemsSketch::deserialize
 //@ functions: frequencies::FrequentItemsSketch::deserialize_inner
-//@ bounds: size-8 sketches with 0..=2 active u64 items (any valid table layout), arbitrary offset and stream weight - including the purged-to-empty state (no active item, stream_weight > 0, offset > 0)
+//@ bounds: size-8 sketches with 0 or 1 active u64 item, arbitrary offset and stream weight - including the purged-to-empty state (no active item, stream_weight > 0, offset > 0)
 //@ assumes: sketch invariant (valid probing table)
 //@ replay_stub: frequencies/reverse_purge_item_hash_map.rs | fn hash_item<T: Hash>(item: &T) -> u64 { | return self::verif_kani_frequencies_map::verif_hash_item(item);
 //@ desc: serialize() follows the Frequent Items layout (preLongs 1/4, serVer 1, family 10, lgMax @3, lgCur @4, flags @5 with empty bit 2, activeItems u32 @8, streamWeight u64 @16, offset u64 @24, then counts, then items) read by an independent decoder; deserialize(serialize(s)) has the same total weight, maximum error and per-item bounds for every key
@@ -280,9 +317,10 @@ fn rd_u64(b: &[u8], o: usize) -> u64 {
 #[kani::stub(<[u64]>::select_nth_unstable, crate::verif_kani_common::model_select_nth)]
 fn c11_frequencies_roundtrip_layout() {
     vm::init_home();
-    let w = any_world();
+    let which: u8 = kani::any();
+    kani::assume(which < 2);
+    let w = if which == 0 { world_with_layout(vm::LAYOUT_0) } else { world_with_layout(vm::LAYOUT_1) };
     let n = w.s.hash_map.num_active();
-    kani::assume(n <= 2);
     let bytes = w.s.serialize();
     let weight = w.s.total_weight();
     let offset = w.s.maximum_error();
@@ -307,8 +345,7 @@ fn c11_frequencies_roundtrip_layout() {
     }
     // ---- round trip (C11)
     let r = FrequentItemsSketch::<u64>::deserialize(&bytes);
-    assert!(r.is_ok(), "own image rejected");
-    let g = r.unwrap();
+    let g = crate::verif_kani_common::expect_ok(r, "own image rejected");
     assert!(g.total_weight() == weight, "total weight lost in round trip");
     assert!(g.maximum_error() == offset, "maximum error lost in round trip");
     assert!(g.num_active_items() == n);
@@ -317,7 +354,7 @@ fn c11_frequencies_roundtrip_layout() {
     kani::assume((x as usize) < D);
     assert!(g.lower_bound(&x) == w.s.lower_bound(&x) && g.upper_bound(&x) == w.s.upper_bound(&x), "bounds differ after round trip");
     kani::cover!(n == 0 && weight > 0);
-    kani::cover!(n == 2);
+    kani::cover!(n == 1);
     kani::cover!(weight == 0);
     core::mem::forget((w, g, bytes));
 }
@@ -351,4 +388,33 @@ fn c14_frequencies_any_bytes() {
     } else {
         core::mem::forget(r);
     }
+}
+
+//@ props: C07 C17 C18
+//@ tier: quick
+//@ timeout: 300
+//@ functions: frequencies::FrequentItemsSketch::maximum_map_capacity
+//@ functions: frequencies::FrequentItemsSketch::epsilon_for_lg
+//@ functions: frequencies::FrequentItemsSketch::with_lg_map_sizes
+//@ bounds: every lg_max_map_size in 3..=11 (map sizes 8..=2048); sample size and purge amortisation arithmetic
+//@ desc: maximum_map_capacity = 3/4 of the map size (so a purge always finds an empty slot: capacity + 1 < size); the purge sample is min(1024, capacity) and at least 3/8 of the map size of the sampled counters are >= the median, so maximum_error <= total_weight * 8/(3*M) <= epsilon * total_weight with epsilon = 3.5/M
+#[kani::proof]
+fn c07_capacity_and_epsilon_arithmetic() {
+    let lg: u8 = kani::any();
+    kani::assume(lg >= 3 && lg <= 11);
+    let m: usize = 1usize << lg;
+    let cap = m * LOAD_FACTOR_NUMERATOR / LOAD_FACTOR_DENOMINATOR;
+    assert!(cap == 3 * m / 4);
+    assert!(cap + 1 < m, "a map holding capacity + 1 items would be full");
+    let sample = if SAMPLE_SIZE < cap { SAMPLE_SIZE } else { cap };
+    let limit = sample;
+    let mid = limit / 2;
+    let at_least = limit - mid; // sampled counters >= median
+    if lg <= 10 {
+        assert!(8 * at_least >= 3 * m, "fewer than 3M/8 counters lose a full median per purge");
+    }
+    let eps = FrequentItemsSketch::<u64>::epsilon_for_lg(lg);
+    assert!(eps == 3.5 / (m as f64));
+    assert!(8.0 / 3.0 < EPSILON_FACTOR);
+    kani::cover!(lg == 10);
 }
